@@ -62,12 +62,15 @@ generate_more_samples|ValueError_time_vector_has_n+1_entries|position>=1e6):
 np.arange(t0, t0+n*Ts, Ts*1.0000000001) has n+1 entries once t0/Ts >~ 2e6.
 """
 import math
+import os
+import traceback
+from contextlib import contextmanager
 
 import numpy as np
 
-from vmc import bfs
+from vmc import bfs, common
 from vmc.parallel import run_shards
-from vmc.report import Check
+from vmc.report import Broken, Check
 
 PID = "C14"
 LEVEL = "model_checking"
@@ -110,6 +113,90 @@ BLOCK_GEN_HUGE = (65537, 100000)           # first event only, scalar generator 
 BLOCK_SKIP = (1023, 1024, 1025, 4096, 4097, 65537)
 BLOCK_FDTS = ((100.0, 1e-3), (5.0, 3.25e-8), (0.4, 1.0))
 BLOCK_SHAPES = (None, 3)
+
+
+MISSING = object()
+# the generator has no public accessor for its ray angles / phases: candidate private spellings
+PHI_NAMES = ("_phi_l", "phi_l", "_phi", "phi", "_phis", "_phi_rays", "_ray_phi")
+PSI_NAMES = ("_psi_l", "psi_l", "_psi", "psi", "_psis", "_psi_rays", "_ray_psi")
+TIME_NAMES = ("_current_time", "current_time")                       # seconds
+INDEX_NAMES = ("_current_sample", "_sample_index", "_sample_counter", "_next_sample", "_position")   # samples
+
+
+def _private(obj, *candidate_names, default=MISSING):
+    """the first existing attribute among the candidate (private) names, else `default` - never an
+    AttributeError: a relation whose oracle input is unavailable is skipped and counted"""
+    for name in candidate_names:
+        try:
+            v = getattr(obj, name, MISSING)
+        except Exception:  # noqa
+            v = MISSING
+        if v is not MISSING:
+            return v
+    return default
+
+
+@contextmanager
+def own_errors_are_broken():
+    """an exception whose innermost relevant frame is the check's own code (checks/ or vmc/) says nothing
+    about the property: the check is broken (exit 2), never a violation; exceptions raised inside pyphysim
+    (for VALID calls) are left to chk.guard"""
+    try:
+        yield
+    except (Broken, KeyboardInterrupt, SystemExit):
+        raise
+    except BaseException as e:  # noqa
+        own = (os.path.join(common.VERIF_DIR, "checks") + os.sep, os.path.join(common.VERIF_DIR, "vmc") + os.sep)
+        for fr in reversed(traceback.extract_tb(e.__traceback__)):
+            f = os.path.abspath(fr.filename)
+            if "/pyphysim/" in f:
+                raise
+            if f.startswith(own):
+                raise Broken("exception in the check's own code (%s:%d in %s): %s: %s"
+                             % (os.path.basename(f), fr.lineno, fr.name, type(e).__name__, e))
+        raise
+
+
+@contextmanager
+def guarded(chk, sig, case):
+    with chk.guard(sig, case):
+        with own_errors_are_broken():
+            yield
+
+
+def phases_of(g, shape):
+    """(phi, psi) as float arrays of shape (L,) + shape + (1,), or (None, None) when the generator does not
+    expose them under a known name / layout (then the formula relation is skipped and counted)"""
+    phi, psi = _private(g, *PHI_NAMES), _private(g, *PSI_NAMES)
+    if phi is MISSING or psi is MISSING or phi is None or psi is None:
+        return None, None
+    try:
+        phi, psi = np.array(phi, dtype=float, copy=True), np.array(psi, dtype=float, copy=True)
+        L = int(g.L)
+    except Exception:  # noqa
+        return None, None
+    shp = shape_tuple(shape)
+    if phi.shape != psi.shape:
+        return None, None
+    if phi.shape == (L,) + shp:
+        return phi[..., None], psi[..., None]
+    if phi.shape == (L,) + shp + (1,):
+        return phi, psi
+    return None, None
+
+
+def position_of(g):
+    """the position the generator reports (in samples), or None when it is not readable"""
+    t = _private(g, *TIME_NAMES)
+    try:
+        if t is not MISSING and t is not None:
+            return float(t) / float(g.Ts)
+        k = _private(g, *INDEX_NAMES)
+        if k is not MISSING and k is not None:
+            return float(k)
+    except Exception:  # noqa
+        pass
+    return None
 
 
 def shape_tuple(shape):
@@ -186,6 +273,7 @@ class JState:
         self.phi = self.psi = self.s0 = None
         self.prev_samples = None
         self.k_before = 0
+        self.pos_unknown = False  # an invalid call changed the object and its position cannot be re-read
         self.kept = []          # every array handed out by get_samples(), NOT copied: dict(arr, snap, k0, n, what)
 
 
@@ -210,8 +298,8 @@ def derive(cfg):
         return dict(g=JakesSampleGenerator(cfg["Fd"], cfg["Ts"], cfg["L"], _tup(cfg["shape"]), rs), parent=None)
     if root[0] == "similar":
         p = JakesSampleGenerator(cfg["Fd"], cfg["Ts"], cfg["L"], _tup(cfg["shape"]), rs)
-        out = dict(parent=p, parent_phi=np.array(p._phi_l, dtype=float, copy=True),
-                   parent_psi=np.array(p._psi_l, dtype=float, copy=True),
+        pphi, ppsi = phases_of(p, cfg["shape"])
+        out = dict(parent=p, parent_phi=pphi, parent_psi=ppsi,
                    parent_s0=np.array(p.get_samples(), copy=True))
         for kind, n in root[1]:
             (p.generate_more_samples if kind == "generate" else p.skip_samples_for_next_generation)(n)
@@ -237,8 +325,7 @@ def build(cfg, hist):
     try:
         g = new_generator(cfg)
         st.g = g
-        st.phi = np.array(g._phi_l, dtype=float, copy=True)
-        st.psi = np.array(g._psi_l, dtype=float, copy=True)
+        st.phi, st.psi = phases_of(g, cfg["shape"])
         st.s0 = np.array(g.get_samples(), copy=True)
         keep(st, "constructor_sample", 0, 1)
     except Exception as e:  # noqa - reported by the invariant
@@ -266,6 +353,18 @@ def build(cfg, hist):
 # ----------------------------------------------------------------------
 # oracle
 # ----------------------------------------------------------------------
+def no_formula(chk, st_or_phi):
+    """True (and counted) when the generator's phases could not be read: the formula relation is skipped,
+    every formula-free relation goes on"""
+    phi = st_or_phi.phi if hasattr(st_or_phi, "phi") else st_or_phi
+    if phi is None:
+        chk.outcome("oracle_input_unavailable", "phases")
+        chk.count("excluded_formula_relation_phases_unreadable")
+        return True
+    chk.count("eval_formula_comparisons")
+    return False
+
+
 def jakes_reference(cfg, phi, psi, k0, n):
     """h[..., i] at t = (k0+i) Ts, boring loop over the rays"""
     L = cfg["L"]
@@ -333,7 +432,7 @@ def check_kept(chk, cfg, st, case):
                          observed="%s and %s" % (kp["what"], q["what"]), expected="independent arrays")
                 break
         if kp["k0"] is not None and kp["n"] <= KEPT_FORMULA_MAX and i < len(kept) - 1 \
-                and a.shape == shape_tuple(cfg["shape"]) + (kp["n"],):
+                and a.shape == shape_tuple(cfg["shape"]) + (kp["n"],) and st.phi is not None:
             ref = jakes_reference(cfg, st.phi, st.psi, kp["k0"], kp["n"])
             if not np.all(np.abs(a - ref) <= value_tol(cfg, kp["k0"] + kp["n"])):
                 chk.fail(("returned_array", "value_vs_jakes_formula_at_end_of_history"), case,
@@ -375,13 +474,14 @@ def _check_state(chk, cfg, hist, st, case=None):
             if s.shape != shp + (1,):
                 chk.fail((how, "wrong_shape"), case, observed=s.shape, expected=shp + (1,))
                 return
-            ref = jakes_reference(cfg, st.phi, st.psi, 0, 1)
-            if not np.all(np.abs(s - ref) <= ABS_V):
-                chk.fail((how, "sample0_value"), case, observed=s.ravel()[:3], expected=ref.ravel()[:3])
+            if not no_formula(chk, st):
+                ref = jakes_reference(cfg, st.phi, st.psi, 0, 1)
+                if not np.all(np.abs(s - ref) <= ABS_V):
+                    chk.fail((how, "sample0_value"), case, observed=s.ravel()[:3], expected=ref.ravel()[:3])
         for name, want in (("Fd", Fd), ("Ts", cfg["Ts"]), ("L", L)):
             if getattr(g, name) != want:
                 chk.fail(("constructor", "property_" + name), case, observed=getattr(g, name), expected=want)
-        if g.shape != (None if cfg["shape"] is None else shp):
+        if (g.shape is None) != (cfg["shape"] is None) or shape_tuple(_tuplify(g.shape)) != shp:
             chk.fail(("constructor", "property_shape"), case, observed=g.shape, expected=shp)
         return
     kind, n = hist[-1][0], int(hist[-1][1])
@@ -407,8 +507,7 @@ def _check_state(chk, cfg, hist, st, case=None):
     chk.outcome("position_decade", decade(k0))
     tol = value_tol(cfg, k0 + n)
     amp = math.sqrt(L)
-    ref = jakes_reference(cfg, st.phi, st.psi, k0, n)
-    d = np.abs(s - ref)
+    d = np.zeros(1) if no_formula(chk, st) else np.abs(s - jakes_reference(cfg, st.phi, st.psi, k0, n))
     if not np.all(d <= tol):
         i = int(np.argmax(d.reshape(-1, n).max(axis=0)))
         chk.fail(("generate_more_samples", "value_vs_jakes_formula", pos_bucket(k0)), case,
@@ -547,8 +646,7 @@ def build_life(cfg, hist):
     try:
         d = derive(cfg)
         g = d["g"]
-        st.a = _view(g, np.array(g._phi_l, dtype=float, copy=True), np.array(g._psi_l, dtype=float, copy=True),
-                     np.array(g.get_samples(), copy=True), cfg["k_start"])
+        st.a = _view(g, *phases_of(g, cfg["shape"]), np.array(g.get_samples(), copy=True), cfg["k_start"])
         st.spec_a = dict(cfg)
         if d["parent"] is not None:
             # the second live object is the parent the generator was derived from
@@ -558,8 +656,7 @@ def build_life(cfg, hist):
         else:
             st.spec_b = dict(cfg, root=("ctor",), k_start=1, rs_seed=cfg["rs_seed"] + 500)
             h = derive(st.spec_b)["g"]
-            st.b = _view(h, np.array(h._phi_l, dtype=float, copy=True), np.array(h._psi_l, dtype=float, copy=True),
-                         np.array(h.get_samples(), copy=True), 1)
+            st.b = _view(h, *phases_of(h, cfg["shape"]), np.array(h.get_samples(), copy=True), 1)
     except Exception as e:  # noqa
         st.problem = (("obtain_generator", (cfg.get("root") or ("ctor",))[0], "raises", type(e).__name__),
                       repr(e), "a generator")
@@ -632,29 +729,35 @@ def resync(o, spec, what, changed):
     """re-synchronise the reference model of one generator from its reported state after an invalid call;
     returns a problem tuple if that state is not a coherent generator"""
     g = o.g
-    pos = g._current_time / g.Ts
-    k = int(round(pos))
-    if not abs(pos - k) <= REL_T * abs(k) + ABS_T:
-        return (("after_invalid_call", what, "generator_left_at_non_integer_position"),
-                "position %r samples" % pos, "an integer sample position")
+    pos = position_of(g)
+    if pos is None:
+        # the position is not readable: it is still known when the call left the object untouched
+        if changed:
+            o.pos_unknown = True
+        k = o.k
+    else:
+        k = int(round(pos))
+        if not abs(pos - k) <= REL_T * abs(k) + ABS_T:
+            return (("after_invalid_call", what, "generator_left_at_non_integer_position"),
+                    "position %r samples" % pos, "an integer sample position")
     shape = g.shape
     try:
-        dims = (g.L,) + shape_tuple(shape) + (1,)
-        ok = all(isinstance(x, (int, np.integer)) and x >= 0 for x in shape_tuple(shape)) and \
-            np.shape(g._phi_l) == dims and np.shape(g._psi_l) == dims
+        ok = all(isinstance(x, (int, np.integer)) and x >= 0 for x in shape_tuple(shape))
     except Exception:  # noqa
         ok = False
-    if not ok:
+    phi, psi = phases_of(g, shape) if ok else (None, None)
+    have_names = _private(g, *PHI_NAMES) is not MISSING and _private(g, *PSI_NAMES) is not MISSING
+    if not ok or (have_names and phi is None):
         return (("after_invalid_call", what, "reported_shape_disagrees_with_phases"),
-                "shape %r, phases %r" % (shape, np.shape(g._phi_l)), "phases of shape (L,) + shape + (1,)")
+                "shape %r, phases %r" % (shape, np.shape(_private(g, *PHI_NAMES, default=None))),
+                "phases of shape (L,) + shape + (1,)")
     o.k = k
     spec["shape"] = shape
     for kp in o.kept:
         # whatever the invalid call did to pieces handed out earlier is free; from here on they must stay
         kp["k0"], kp["snap"] = None, kp["arr"].tobytes()
     if changed:
-        o.phi = np.array(g._phi_l, dtype=float, copy=True)
-        o.psi = np.array(g._psi_l, dtype=float, copy=True)
+        o.phi, o.psi = phi, psi
         spec["no_twins"] = True       # an identically seeded twin no longer describes this object
     return None
 
@@ -680,6 +783,9 @@ def check_life(chk, cfg, hist, st):
     if st.note is not None:
         chk.outcome("invalid_call", st.note)
         chk.count("eval_invalid_calls")
+        if st.a is not None and (st.a.pos_unknown or st.b.pos_unknown):
+            chk.outcome("oracle_input_unavailable", "position_after_object_changing_invalid_call")
+            chk.count("excluded_histories_after_invalid_call_position_unreadable")
     if st.problem is not None:
         sig, obs, exp = st.problem
         chk.fail(sig, case, observed=obs, expected=exp)
@@ -732,13 +838,15 @@ def run_life(chk, cfg, depth):
     def enabled(hist, st):
         if st.problem is not None or st.a is None or st.a.err is not None or st.b.err is not None:
             return []
+        if st.a.pos_unknown or st.b.pos_unknown:
+            return []          # an invalid call changed the object and its position cannot be re-read
         if len(hist) + 1 >= depth:
             # the last event of a history is only useful when it observes something
             return [e for e in evs if e[0] in ("generate", "b_generate") and isinstance(e[1], int) and e[1] >= 1]
         return evs
 
     def invariant(hist, st):
-        with chk.guard(("jakes", "lifecycle"), life_case(cfg, hist)):
+        with guarded(chk, ("jakes", "lifecycle"), life_case(cfg, hist)):
             check_life(chk, cfg, hist, st)
 
     def canon(hist, st):
@@ -803,7 +911,7 @@ def check_function_part(chk, seed):
                 for n2 in (1, 7, 100, 4097):
                     case = {"part": "function", "Fd": Fd, "Ts": Ts, "L": L, "shape": shape, "k0": k0,
                             "n": [n1, n2], "phase_seed": 4242 + 1000 * seed + ci}
-                    with chk.guard(("generate_jakes_samples",), case):
+                    with guarded(chk, ("generate_jakes_samples",), case):
                         function_case(chk, case)
         # phases drawn by the function itself: shape / count only
         np.random.seed(99 + seed)
@@ -824,7 +932,7 @@ def check_rayleigh_part(chk, seed):
                  (("generate", 5), ("generate", 5), ("skip", 1)), (("generate", 1), ("skip", 3), ("generate", 1), ("skip", 1)),
                  (("similar", 0), ("generate", 5)), (("generate", 5), ("set_shape", None), ("generate", 2))]:
             case = {"part": "rayleigh", "shape": shape, "history": [list(h) for h in hist], "np_seed": 7 + seed}
-            with chk.guard(("rayleigh",), case):
+            with guarded(chk, ("rayleigh",), case):
                 rayleigh_case(chk, case)
 
 
@@ -920,8 +1028,7 @@ def large_case(chk, cfg, n, label, full):
     chk.outcome("large_request", (cfg["L"], cfg["shape"], label))
     chk.nontriv(("large", cfg["L"], cfg["shape"], n))
     g = new_generator(cfg)
-    phi = np.array(g._phi_l, dtype=float, copy=True)
-    psi = np.array(g._psi_l, dtype=float, copy=True)
+    phi, psi = phases_of(g, cfg["shape"])
     g.generate_more_samples(n)                     # positions 1 .. n in ONE request
     s = np.asarray(g.get_samples())
     if s.shape != shp + (n,):
@@ -940,7 +1047,7 @@ def large_case(chk, cfg, n, label, full):
             b *= 2
         idx = np.array(sorted(idx))
     worst = 0.0
-    for a in range(0, idx.size, 8192):             # the oracle itself works in chunks
+    for a in (range(0, idx.size, 8192) if not no_formula(chk, phi) else ()):   # the oracle works in chunks
         part = idx[a:a + 8192]
         d = np.abs(s[..., part] - jakes_at(cfg, phi, psi, part + 1))
         worst = max(worst, float(d.max()))
@@ -993,7 +1100,7 @@ def run_config(chk, cfg, depth):
     if cfg.get("large"):
         thorough = chk.tier == "thorough"
         for c2, n, label in cfg["cases"]:
-            with chk.guard(("jakes", "large_single_request"), dict(case_of(c2, (("generate", n),)), part="large")):
+            with guarded(chk, ("jakes", "large_single_request"), dict(case_of(c2, (("generate", n),)), part="large")):
                 large_case(chk, c2, n, label, thorough)
             chk.states += 1
             chk.transitions += 1
@@ -1017,7 +1124,7 @@ def run_config(chk, cfg, depth):
         return block_enabled(cfg, hist) if cfg.get("block") else evs
 
     def invariant(hist, st):
-        with chk.guard(("jakes",), case_of(cfg, hist)):
+        with guarded(chk, ("jakes",), case_of(cfg, hist)):
             check_state(chk, cfg, hist, st)
 
     def canon(hist, st):
@@ -1059,7 +1166,11 @@ def main(chk: Check):
     chk.assume("timing tolerance |t-(k+i)Ts| <= %g*(k+n)*Ts + %g*Ts (the implementation stretches its "
                "step by 1+1e-10 on purpose); value tolerance = 2 pi Fd sqrt(L) * that + %g" % (REL_T, ABS_T, ABS_V))
     chk.assume("configurations restricted to Fd*Ts <= 0.5 (Nyquist)")
-    chk.assume("the generator's phases are read back (_phi_l, _psi_l) right after construction and must stay fixed")
+    chk.assume("the Jakes-formula relation needs the generator's ray angles / phases, which have no public accessor: "
+               "they are read right after construction through candidate private names %r / %r; when unreadable the "
+               "formula relation is skipped (outcome oracle_input_unavailable) and the formula-free relations "
+               "(twin generators with equal RS seeds: one request / single skip / 500-sample chunks, shapes, "
+               "|h|<=sqrt(L), Fd=0, kept arrays) keep running" % (PHI_NAMES[:2], PSI_NAMES[:2]))
     chk.assume("a state in which a request raised is terminal: the position is undefined afterwards")
     jobs = plan(chk)
     chk.extra["configurations"] = len(jobs)
@@ -1073,6 +1184,9 @@ def main(chk: Check):
             run_config(c, cfg, depth)
 
     run_shards(chk, worker)
+    if chk.counters.get("eval_formula_comparisons", 0) == 0:
+        chk.cap("the Jakes-formula relation was unavailable everywhere (phases not readable); "
+                "only the formula-free relations were checked")
     chk.sample(case_of(jobs[-1][0], (("generate", 1), ("skip", 10 ** 7 + 3), ("generate", 1))))
     if not [v for v in chk.violations.values() if "time_vector_has_n+1" not in "|".join(v["sig"])]:
         # vacuity only matters for a "holds" verdict; a run with other violations must stay a VIOLATION
@@ -1088,17 +1202,17 @@ def main(chk: Check):
 def replay(case, chk: Check):
     part = case.get("part")
     if part == "function":
-        with chk.guard(("generate_jakes_samples",), case):
+        with guarded(chk, ("generate_jakes_samples",), case):
             function_case(chk, case)
         return
     if part == "rayleigh":
-        with chk.guard(("rayleigh",), case):
+        with guarded(chk, ("rayleigh",), case):
             rayleigh_case(chk, case)
         return
     if part == "large":
         cfg = dict(Fd=case["Fd"], Ts=case["Ts"], L=case["L"], shape=_tuplify(case["shape"]),
                    rs_seed=case["rs_seed"], k_start=1, index=-1)
-        with chk.guard(("jakes", "large_single_request"), case):
+        with guarded(chk, ("jakes", "large_single_request"), case):
             large_case(chk, cfg, int(case["history"][0][1]), case.get("label", ""), case.get("full", False))
         return
     if part == "lifecycle":
@@ -1106,7 +1220,7 @@ def replay(case, chk: Check):
                    rs_seed=case["rs_seed"], life=True, root=_tuplify(case["root"]), k_start=case["k_start"],
                    index=-1)
         hist = tuple((h[0], _tuplify(h[1])) for h in case["history"])
-        with chk.guard(("jakes", "lifecycle"), case):
+        with guarded(chk, ("jakes", "lifecycle"), case):
             check_life(chk, cfg, hist, build_life(cfg, hist))
         return
     cfg = dict(Fd=case["Fd"], Ts=case["Ts"], L=case["L"], shape=case["shape"],
@@ -1115,5 +1229,5 @@ def replay(case, chk: Check):
     if isinstance(cfg["shape"], list):
         cfg["shape"] = tuple(cfg["shape"])
     hist = tuple((h[0], int(h[1])) for h in case["history"])
-    with chk.guard(("jakes",), case):
+    with guarded(chk, ("jakes",), case):
         check_state(chk, cfg, hist, build(cfg, hist))
